@@ -353,6 +353,9 @@ impl World {
         out.after = after.clone();
         out.rollbacks = self.clients[m].cb.0.lock().unwrap()[nb..].to_vec();
         self.clients[m].rollbacks_seen += out.rollbacks.len();
+        if !out.rollbacks.is_empty() {
+            self.clients[m].last_rollback_seq = self.clients[m].offers;
+        }
         if first {
             self.clients[m].first_result.insert(idx, out.class.clone());
         }
